@@ -254,9 +254,12 @@ pub fn prop(tier: Tier, seed: u64) -> Prop {
         }
         let (crop, alg) = (crops[d[2]], a1[d[3]]);
         ctx.sample(|| json!({"n_in": n_in, "n_out": n_out, "crop": [crop.start, crop.len], "alg": format!("{:?}", alg), "types": "all 13", "backends": format!("{:?}", b1)}));
+        if ctx.describe_only {
+            return;
+        }
         check_1d_eq(ctx, n_in, crop, n_out, alg, &ALL_PT, &b1, 1, seed, None);
         ctx.nontrivial += 1;
-    }));
+    }).isolated());
 
     // ---- (2) number of lines 1..9 (4-row groups and 1-3 trailing rows), widths 1..W (row-byte residues)
     let nins: Vec<u32> = vec![3, 5, 13, 17, 33, 70];
@@ -269,9 +272,12 @@ pub fn prop(tier: Tier, seed: u64) -> Prop {
         decode(idx, &d2, &mut d);
         let (n_in, n_out, lines, f) = (ni[d[0]], d[1] as u32 + 1, d[2] + 1, f2[d[3]]);
         ctx.sample(|| json!({"n_in": n_in, "n_out": n_out, "lines": lines, "alg": format!("Conv({:?})", f)}));
+        if ctx.describe_only {
+            return;
+        }
         check_1d_eq(ctx, n_in, Crop1 { start: 0.0, len: n_in as f64 }, n_out, Alg::Conv(f), &ALL_PT, &b2, 0, seed, Some(lines));
         ctx.nontrivial += 1;
-    }));
+    }).isolated());
     let wmax: u64 = tier.pick(40, 70);
     let dims3 = vec![wmax, 3, 3, 3];
     let (d3, b3) = (dims3.clone(), bes.clone());
@@ -280,9 +286,12 @@ pub fn prop(tier: Tier, seed: u64) -> Prop {
         decode(idx, &d3, &mut d);
         let (lines, n_in, n_out, f) = (d[0] + 1, [3u32, 8, 20][d[1]], [1u32, 2, 5][d[2]], [F::Bilinear, F::CatmullRom, F::Lanczos3][d[3]]);
         ctx.sample(|| json!({"lines": lines, "n_in": n_in, "n_out": n_out, "alg": format!("Conv({:?})", f)}));
+        if ctx.describe_only {
+            return;
+        }
         check_1d_eq(ctx, n_in, Crop1 { start: 0.25, len: n_in as f64 - 0.5 }, n_out, Alg::Conv(f), &ALL_PT, &b3, 0, seed, Some(lines));
         ctx.nontrivial += 1;
-    }));
+    }).isolated());
 
     // ---- (3) long kernels (precisions 17..21)
     let long: Vec<(u32, u32)> = tier.pick(vec![(64, 1), (128, 3), (255, 2), (1000, 3)], vec![(64, 1), (100, 3), (128, 3), (255, 2), (256, 7), (1000, 3), (4097, 2)]);
@@ -293,9 +302,12 @@ pub fn prop(tier: Tier, seed: u64) -> Prop {
         decode(idx, &d4, &mut d);
         let ((n_in, n_out), f) = (lg[d[0]], fl4[d[1]]);
         ctx.sample(|| json!({"n_in": n_in, "n_out": n_out, "alg": format!("Conv({:?})", f)}));
+        if ctx.describe_only {
+            return;
+        }
         check_1d_eq(ctx, n_in, Crop1 { start: 0.0, len: n_in as f64 }, n_out, Alg::Conv(f), &ALL_PT, &b4, 2, seed, Some(6));
         ctx.nontrivial += 1;
-    }));
+    }).isolated());
 
     // ---- (4) 2-D incl. alpha on/off and SuperSampling
     let m: u32 = tier.pick(4, 6);
@@ -336,9 +348,12 @@ pub fn prop(tier: Tier, seed: u64) -> Prop {
         };
         let (alg, alpha) = (a5[d[2]], d[3] == 1);
         ctx.sample(|| json!({"src": [sw, sh], "dst": [dw, dh], "crop": [cx.start, cy.start, cx.len, cy.len], "alg": format!("{:?}", alg), "alpha": alpha}));
+        if ctx.describe_only {
+            return;
+        }
         check_2d_eq(ctx, sw, sh, dw, dh, cx, cy, alg, alpha, &ALL_PT, &b5, seed);
         ctx.nontrivial += 1;
-    }));
+    }).isolated());
 
     // ---- (5) alpha operations: SIMD vs portable at every row width
     let dims6 = vec![6u64, 70, 2, 2];
@@ -350,6 +365,9 @@ pub fn prop(tier: Tier, seed: u64) -> Prop {
         let ck = pt.ck();
         let nc = pt.ncomp();
         ctx.sample(|| json!({"type": format!("{:?}", pt), "row_width": w, "op": format!("{:?}", op), "entry": format!("{:?}", entry)}));
+        if ctx.describe_only {
+            return;
+        }
         let b: Vec<f64> = match ck {
             CK::U8 => vec![0.0, 1.0, 2.0, 127.0, 128.0, 254.0, 255.0],
             CK::U16 => vec![0.0, 1.0, 255.0, 256.0, 32767.0, 32768.0, 65534.0, 65535.0],
@@ -385,7 +403,7 @@ pub fn prop(tier: Tier, seed: u64) -> Prop {
         }
         ctx.outcome(fnv(base.bytes()));
         ctx.nontrivial += 1;
-    }));
+    }).isolated());
 
     p.rule = "1-D: every (n_in,n_out) up to the bound x crop sub-alphabet x (7 built-in + sharp(0.25,0.5,0.7) + lanczos4) x {Convolution, Interpolation}, all 13 types, both orientations: the portable result is compared bit-for-bit with the fixed-point model clip((2^(p-1)+Σk·x)>>p) built from the implementation's own tables (E2 conformance), and each SIMD back-end with the portable one; line counts 1..13 and 1..70 (row groups, trailing rows, every residue of row bytes mod 32); long kernels up to 4097 taps; 2-D shapes x crops x 35 algorithms x alpha on/off; alpha multiply/divide at every row width 1..70. Integer formats byte-identical (16-bit alpha division / alpha-aware resize ±1), floats within one f32 ulp (+2^-41 of the source magnitude) per pass".into();
     p.bounds = json!({"n_in_max": nin_max, "n_out_max": nout_max, "M": m});
